@@ -64,8 +64,8 @@ CHECKS = {
    technique="Lean 4 proof (factorisation + independence from unlabeled rows, building on the C07 theorems) + impl-vs-impl differential check driven by the model's wiring",
    ref="§6 C08"),
  'C09': dict(
-   text="Theorems over ℝ, all sizes: the four Penrose equations determine the pseudo-inverse uniquely (= the inverse when invertible), so the certificate evaluated on Covariance's output identifies M; RCA: L·C·Lᵀ = 1 ⇒ LᵀL = C⁻¹, and the code's inverse square root V·diag(1/√w)·Vᵀ whitens C = V·diag(w)·Vᵀ; LFDA: the class-by-class vectorised accumulation G_c = Xcᵀdiag(A·1)Xc − XcᵀAXc and Σ_c G_c/n_c equal the documented pairwise definition ½Σ W^w_ij (x_i−x_j)(x_i−x_j)ᵀ (Laplacian identity), weighted / plain embeddings give LᵀL = Σλ_i v_i v_iᵀ / Σ v_i v_iᵀ. Tie: Float twins of np.cov, the within-chunk covariance and BOTH LFDA scatter matrices (code form, local scaling by the k-th nearest same-class neighbour) compared with independent reference computations; certificates (Penrose residuals, whitening, generalized-eigen optimality of RCA's retained directions, LFDA's M against the documented generalized-eigen solution for every embedding_type × k × n_components, classes smaller than k) evaluated on the real fits.",
-   note=TB + "The between-class scatter identity (code form = pairwise form) is checked numerically by the twin on every run but proved only for the within-class matrix and the per-class G (C09_lfda_pairwise_Sw); completeness of the generalized eigen-solution rests on the external eigen-solver, certified a posteriori.",
+   text="Theorems over ℝ, all sizes: the four Penrose equations determine the pseudo-inverse uniquely (= the inverse when invertible), so the certificate evaluated on Covariance's output identifies M; RCA: L·C·Lᵀ = 1 ⇒ LᵀL = C⁻¹, and the code's inverse square root V·diag(1/√w)·Vᵀ whitens C = V·diag(w)·Vᵀ; LFDA: the class-by-class vectorised accumulation of BOTH scatter matrices (G_c = Xcᵀdiag(A·1)Xc − XcᵀAXc, S_w = Σ_c G_c/n_c, S_b = Σ_c[G_c/n + (1−n_c/n)XcᵀXc + s_c s_cᵀ/n] − s sᵀ/n − S_w) equals the documented pairwise definitions ½Σ W_ij (x_i−x_j)(x_i−x_j)ᵀ with W^w_ij = A_ij/n_c and W^b_ij = A_ij(1/n − 1/n_c) inside a class, 1/n across classes (Laplacian identity + linearity in the weights), weighted / plain embeddings give LᵀL = Σλ_i v_i v_iᵀ / Σ v_i v_iᵀ. Tie: Float twins of np.cov, the within-chunk covariance and BOTH LFDA scatter matrices (code form, local scaling by the k-th nearest same-class neighbour) compared with independent reference computations; certificates (Penrose residuals, whitening, generalized-eigen optimality of RCA's retained directions, LFDA's M against the documented generalized-eigen solution for every embedding_type × k × n_components, classes smaller than k) evaluated on the real fits.",
+   note=TB + "Completeness of the generalized eigen-solution rests on the external eigen-solver, certified a posteriori.",
    technique="Lean 4 proof (Penrose uniqueness, whitening algebra, Laplacian/pairwise scatter identity) + certificate evaluation on real fits",
    ref="§6 C09"),
  'C11': dict(
